@@ -94,7 +94,7 @@ def cliOp (args impl : List String) : Option (String × String) := do
         else if wantErr ≠ specErr then "FAIL model-exit-differs-from-spec"
         else if (out "banner" = "fail") ≠ specErr then "FAIL banner-differs-from-verdict"
         else if (get "combine") = some "1" ∧ ¬setupFailed ∧
-            n "later" ≠ (truth.getD 0 0) + (if (get "failkind") = some "errorf" ∨ (get "failkind") = some "timeerr" ∨ (get "failkind") = some "errunhash" then truth.getD 1 0 else 0) then
+            n "later" ≠ (truth.getD 0 0) + (if (get "failkind") = some "errorf" ∨ (get "failkind") = some "timeerr" ∨ (get "failkind") = some "errunhash" ∨ (get "failkind") = some "errnil" then truth.getD 1 0 else 0) then
           "FAIL later-component-of-a-combined-scenario-did-not-run-exactly-when-the-earlier-one-did-not-stop"
         else if out "envAfter" = "dirty" then "FAIL stage-parameters-remain-set-after-the-run"
         else if n "leak" > 0 then "FAIL goroutine-remains-after-the-command-returned"
